@@ -364,9 +364,12 @@ def gen_text_ind(rng):
             levels.append(levels[-1] + rng.choice([1, 2, 4]))
         elif c < 0.55 and len(levels) > 1:
             del levels[rng.randrange(1, len(levels)):]
-        elif c < 0.62:
-            levels = [max(0, levels[-1] - 1)] if levels[-1] > 0 else levels       # dedent to a column that may not be open
-        body = ' '.join(rng.choice(['a', 'bc', 'if', 'x', '( a )', '( if', ')', 'q (', 'a ?'][:7 + (2 if rng.random() < 0.15 else 0)])
+        elif c < 0.7 and levels[-1] > 0:
+            col = levels[-1] - 1                                   # dedent to a column that is (usually) not open
+            while levels and levels[-1] > col:
+                levels.pop()
+            levels.append(col)
+        body = ' '.join(rng.choice(['a', 'bc', 'if', 'x', '( a )', 'a', '( if', ')', 'q (', 'a ?'][:6 + rng.choice([0, 0, 1, 2, 4])])
                         for _ in range(rng.randint(1, 3)))
         lines.append(' ' * levels[-1] + body)
         if rng.random() < 0.1:
@@ -716,13 +719,13 @@ def run_history(cid, ops, with_frames=False):
 
 def history_stream(ctx):
     rng = ctx.rng
-    n = ctx.scale(200, 6000) * (3 if ctx.widen else 1)
+    n = ctx.scale(400, 3000) * (3 if ctx.widen else 1)
     cids = sorted(CONFIGS)
     cases, meta = [], []
     nframes = 0
     defs = lconf_defs()
     for hi in range(n):
-        cid = cids[hi % len(cids)] if hi < 2 * len(cids) else rng.choice(cids)
+        cid = cids[hi % len(cids)] if hi < 2 * len(cids) else rng.choice(cids + ['ind_basic', 'ind_basic', 'ind_ctx'])
         ops = []
         for _ in range(rng.randint(0, 6)):
             op = gen_op(rng, cid)
@@ -818,7 +821,7 @@ def subprocess_reference(ctx):
     items = sorted(_FRESH.items())
     rng = ctx.rng
     rng.shuffle(items)
-    items = items[:ctx.scale(120, 1500)]
+    items = items[:ctx.scale(120, 1000)]
     payload = json.dumps([[k[0], json.loads(k[1])] for k, _ in items])
     code = ('import sys, json\nsys.path.insert(0, %r)\nsys.path.insert(0, %r)\nimport props.C10 as m\n'
             'ops = json.loads(sys.stdin.read())\nout = []\n'
@@ -1201,7 +1204,7 @@ def schedule_stream(ctx):
                 full = ctx.thorough() and order == 'PublishLast' and not ctx.widen
                 plan.append((thid, texts, None if full else (3 if ctx.thorough() or ctx.widen else 2), None))
             else:
-                plan.append((thid, texts, 2 if ctx.thorough() else 1, ctx.scale(40, 1500)))
+                plan.append((thid, texts, 2 if ctx.thorough() else 1, ctx.scale(60, 500)))
     for thid, texts, bound, limit in plan:
         cid = TH_CONFIGS[thid][0]
         seq = [sequential(thid, tx) for tx in texts]
@@ -1219,7 +1222,7 @@ def schedule_stream(ctx):
             if total >= budget:
                 break
     # seeded random schedules (random choice at every step)
-    for _ in range(ctx.scale(60, 3000)):
+    for _ in range(ctx.scale(120, 1000)):
         thid = rng.choice(['lexonly', 'lexonly', 'lalr_basic', 'lalr_ctx'])
         texts = rng.choice(TH_TEXTS[thid])
         if rng.random() < 0.3:
@@ -1287,7 +1290,7 @@ def stress_stream(ctx):
     old = sys.getswitchinterval()
     sys.setswitchinterval(1e-6)
     try:
-        for r in range(ctx.scale(8, 120)):
+        for r in range(ctx.scale(8, 60)):
             thid = rng.choice(sorted(TH_CONFIGS))
             cid, how = TH_CONFIGS[thid]
             texts = [gen_text_flat(rng) for _ in range(4)]
@@ -1331,10 +1334,13 @@ def stress_stream(ctx):
 
 # =====================================================================================================
 def correspond(ctx):
-    history_stream(ctx)
-    subprocess_reference(ctx)
-    schedule_stream(ctx)
-    stress_stream(ctx)
+    secs = {}
+    for name, fn in (('histories', history_stream), ('fresh-process', subprocess_reference), ('schedules', schedule_stream),
+                     ('stress', stress_stream)):
+        t0 = time.time()
+        fn(ctx)
+        secs[name] = round(time.time() - t0, 1)
+    ctx.extra['stage_seconds'] = secs
 
 
 def replay(ctx, case):
